@@ -85,19 +85,23 @@ pub fn handle_replace(
     }
 
     // Handle output formats
-    match output {
-        OutputFormat::Json => {
-            if !quiet {
-                let json = serde_json::to_string_pretty(&plan)?;
-                println!("{}", json);
-            }
+    // JSON: standard output carries the plan as one document and nothing else; a dry run stops
+    // here, otherwise the document is written once the plan has been applied
+    let json_output = matches!(output, OutputFormat::Json);
+    let quiet = quiet || json_output;
+    if json_output {
+        if dry_run || (plan.matches.is_empty() && plan.paths.is_empty()) {
+            println!("{}", serde_json::to_string_pretty(&plan)?);
             return Ok(());
-        },
-        OutputFormat::Summary if quiet => {
-            // Quiet mode - no output
-            return Ok(());
-        },
-        _ => {},
+        }
+        if !yes {
+            return Err(anyhow!(
+                "Cannot ask for confirmation with --output json. Use --yes or --dry-run."
+            ));
+        }
+    } else if quiet && dry_run {
+        // Quiet mode - no output
+        return Ok(());
     }
 
     // Check if there are any changes to apply
@@ -162,7 +166,9 @@ pub fn handle_replace(
         commit_changes(&plan)?;
     }
 
-    if !quiet {
+    if json_output {
+        println!("{}", serde_json::to_string_pretty(&plan)?);
+    } else if !quiet {
         println!("✅ Applied successfully! Operation ID: {}", plan.id);
     }
 
